@@ -96,15 +96,26 @@ def gen(tier, seed):
                 n += 1
                 recs.append(aabb_record(f"a{n}", s, unit, M, N, t, R, tw, coll.aabb, cname, True))
                 m = unit * rng.choice((1, 3))
+                mc = C.Margin(coll, m)
+                for rep in range(2):       # repeated queries on the same objects: answers must not drift
+                    n += 1
+                    recs.append(aabb_record(f"a{n}", s, unit, M, N, t, R, tw, mc.aabb, f"Margin({cname})", True, margin=m))
                 n += 1
-                recs.append(aabb_record(f"a{n}", s, unit, M, N, t, R, tw, C.Margin(coll, m).aabb, f"Margin({cname})", True, margin=m))
+                recs.append(aabb_record(f"a{n}", s, unit, M, N, t, R, tw, coll.aabb, cname, True))
             n += 1
             recs.append(aabb_record(f"a{n}", s, unit, M, N, t, R, tw, lambda: free_function_aabb(s, unit, R, tw),
                                     "containment." + s["kind"] + "_aabb", True))
     nfl = 12 if tier == "quick" else 150
     for s in cat:
-        for _ in range(nfl):
+        for fi in range(nfl):
             R = S.random_rotation(rng)
+            if fi % 3 == 0:
+                # nearly axis-aligned: a lattice rotation tilted by a tiny angle about a random axis
+                ax = np.array([rng.gauss(0, 1) for _ in range(3)]); ax /= np.linalg.norm(ax)
+                ang = 10 ** rng.uniform(-9, -3)
+                K = np.array([[0, -ax[2], ax[1]], [ax[2], 0, -ax[0]], [-ax[1], ax[0], 0]])
+                Rt = np.eye(3) + math.sin(ang) * K + (1 - math.cos(ang)) * (K @ K)
+                R = Rt @ (np.array(rng.choice(S.CUBE)[0], dtype=float))
             fs = S.feature_size(s)
             unit = 10 ** rng.uniform(math.log10(2e-2), math.log10(100.0 / fs))
             tw = np.array([rng.uniform(-1, 1) for _ in range(3)]) * rng.choice((0.0, 1.0, 100.0, 500.0))
